@@ -534,6 +534,28 @@ func writeProfileCols(b *strings.Builder, root string, files []string, parsed ma
 		}
 		cols = append(cols, "("+q(c)+", "+k+")")
 	}
+	// golangPprof.go Parse: the guard in front of the profile parser (the statement before pprof_proto.Parse)
+	var guard []string
+	if fd := funcOf(fileOf(root, files, parsed, "utils/unmarshal/golangPprof.go"), "", "Parse"); fd != nil {
+		for _, st := range fd.Body.List {
+			if strings.Contains(oneLine(st), "pprof_proto.Parse(") {
+				break
+			}
+			if is, ok := st.(*ast.IfStmt); ok {
+				if is.Init != nil {
+					guard = append(guard, "if "+oneLine(is.Init)+"; "+oneLine(is.Cond))
+				} else {
+					guard = append(guard, "if "+oneLine(is.Cond))
+				}
+				for _, x := range is.Body.List {
+					guard = append(guard, oneLine(x))
+				}
+			} else {
+				guard = append(guard, oneLine(st))
+			}
+		}
+	}
+	b.WriteString("Definition gen_pprof_parse_guard : list string := " + strList(guard) + ".\n")
 	b.WriteString("Definition gen_profile_cols : list (string * kop) := [" + strings.Join(cols, "; ") + "].\n")
 	fmt.Fprintf(b, "Definition gen_profile_cols_unknown : Z := %d.\n", bad)
 }
